@@ -212,7 +212,9 @@ _S = "admm/solver.py"
 M("C18-prefix-isinstance-float", {"C18": "C18.R1"}, (_S, "    if np.ndim(lambda_parameter) == 0:", "    if isinstance(lambda_parameter, float):"))
 M("C18-int-float-only", {"C18": "C18.R1"}, (_S, "    if np.ndim(lambda_parameter) == 0:", "    if isinstance(lambda_parameter, (int, float)):"))
 M("C18-type-is-float", {"C18": "C18.R1"}, (_S, "    if np.ndim(lambda_parameter) == 0:", "    if type(lambda_parameter) is float:"))
-M("C18-epsilon-float-only", {"C18": "C18.R1"}, ("graphical_lasso.py", "    small_element_indices = (filtered < epsilon) & (filtered > -epsilon)\n    filtered[small_element_indices] = 0\n", "    if isinstance(epsilon, float):\n        small_element_indices = (filtered < epsilon) & (filtered > -epsilon)\n        filtered[small_element_indices] = 0\n"))
+M("C18-epsilon-float-only", {"C18": "C18.R1"}, ("graphical_lasso.py", "    small_element_indices = np.abs(filtered) < epsilon\n    filtered[small_element_indices] = 0\n", "    if isinstance(epsilon, float):\n        small_element_indices = np.abs(filtered) < epsilon\n        filtered[small_element_indices] = 0\n"))
+M("C18-prefix-negated-epsilon", {"C18": "C18.R4"}, ("graphical_lasso.py", "    small_element_indices = np.abs(filtered) < epsilon\n", "    small_element_indices = (filtered < epsilon) & (filtered > -epsilon)\n"))
+M("C18-lambda-no-widening", {"C18": "C18.R4"}, (_S, "        return float(lambda_parameter) * num_occurrences", "        return lambda_parameter * num_occurrences"))
 M("C18-price-float-shortcut", {"C18": ["C18.R1", "C18.R3"]}, ("cluster_label_assignment.py", "    new_model = model.shallow_copy()\n    new_model.clusters", "    if isinstance(model.arguments.label_switching_cost, float) and model.arguments.label_switching_cost == 0:\n        cost = float(np.sum(np.min(label_assignment_cost, axis=1)))\n    new_model = model.shallow_copy()\n    new_model.clusters"))
 M("C18-scalar-count-minus-one", {"C18": "C18.R2"}, (_S, "        num_occurrences = num_blocks - block_id\n        return float(lambda_parameter) * num_occurrences", "        num_occurrences = num_blocks - block_id - 1\n        return float(lambda_parameter) * num_occurrences"))
 M("C18-matrix-first-times-count", {"C18": "C18.R2"}, (_S, "        return np.sum(lambda_parameter[rows, cols])", "        return lambda_parameter[rows[0], cols[0]] * len(rows)"))
@@ -242,3 +244,34 @@ M("C15-kernel-mutable-global", {"C15": "C15.R5"},
   (_L, "from fast_ticc import numba_guard\n", "from fast_ticc import numba_guard\n\nSCALE = {'half': 0.5}\n"),
   (_L, "    lle = 0.5 * (log_det_theta", "    lle = SCALE['half'] * (log_det_theta"))
 M("C15-twin-cache", {"C15": None}, (_L, "@numba_guard.njit()\ndef point_log_likelihood_fast", "@numba_guard.njit(cache=False)\ndef point_log_likelihood_fast"))
+
+# ---------------------------------------------------------------- C16
+_CM = "cluster_metrics.py"
+M("C16-threshold-nonstrict", {"C16": "C16.R2"}, (_CM, "np.sum(np.abs(trained_inverse_covariance) > threshold)", "np.sum(np.abs(trained_inverse_covariance) >= threshold)"))
+M("C16-threshold-no-abs", {"C16": "C16.R2"}, (_CM, "np.sum(np.abs(trained_inverse_covariance) > threshold)", "np.sum(trained_inverse_covariance > threshold)"))
+M("C16-threshold-value", {"C16": "C16.R2"}, (_CM, "    threshold = 2e-5\n", "    threshold = 2e-4\n"))
+M("C16-log-T-minus-one", {"C16": "C16.R1"}, (_CM, "    num_data_points = len(model.point_labels)\n", "    num_data_points = len(model.point_labels) - 1\n"))
+M("C16-factor-one", {"C16": "C16.R1"}, (_CM, "non_zero_params * np.log(num_data_points) - 2*mod_lle", "non_zero_params * np.log(num_data_points) - mod_lle"))
+M("C16-trace-wrong-matrix", {"C16": "C16.R1"}, (_CM, "        empirical_covariance = model.clusters[cluster_id].empirical_covariance\n", "        empirical_covariance = model.clusters[cluster_id].computed_covariance\n"))
+M("C16-trace-other-cluster", {"C16": "C16.R1"}, (_CM, "        empirical_covariance = model.clusters[cluster_id].empirical_covariance\n", "        empirical_covariance = model.clusters[0].empirical_covariance\n"))
+M("C16-skip-first-cluster", {"C16": "C16.R1"}, (_CM, "    for cluster_id in range(model.arguments.num_clusters):\n        trained", "    for cluster_id in range(1, model.arguments.num_clusters):\n        trained"))
+M("C16-carried-never-updated", {"C16": "C16.R3"}, (_CM, "            non_zero_params += cluster_params[point_label]\n            last_point_label = point_label\n", "            non_zero_params += cluster_params[point_label]\n"))
+M("C16-carried-updated-always-before", {"C16": "C16.R3"}, (_CM, "    for point_label in model.point_labels:\n        if point_label != last_point_label:", "    for point_label in model.point_labels:\n        last_point_label = point_label\n        if point_label != last_point_label:"))
+M("C16-params-of-previous-label", {"C16": "C16.R3"}, (_CM, "            non_zero_params += cluster_params[point_label]\n", "            non_zero_params += cluster_params[last_point_label]\n"))
+M("C16-carried-init-zero", {"C16": "C16.R3"}, (_CM, "    last_point_label = -1\n", "    last_point_label = 0\n"))
+M("C16-count-every-point", {"C16": "C16.R3"}, (_CM, "        if point_label != last_point_label:\n            non_zero_params += cluster_params[point_label]\n            last_point_label = point_label\n", "        non_zero_params += cluster_params[point_label]\n"))
+M("C16-unique-labels-only", {"C16": "C16.R3"}, (_CM, "    for point_label in model.point_labels:\n", "    for point_label in sorted(set(model.point_labels)):\n"))
+M("C16-prefix-logdet", {"C16": "C16.R4", "C03": "C03.R5"}, (_CM, "np.linalg.slogdet(trained_inverse_covariance)[1]", "np.log(np.linalg.det(trained_inverse_covariance))"))
+M("C16-twin-len-clusters", {"C16": None}, (_CM, "    for cluster_id in range(model.arguments.num_clusters):\n        trained", "    for cluster_id in range(len(model.clusters)):\n        trained"))
+M("C16-twin-matmul", {"C16": None}, (_CM, "np.trace(np.dot(trained_inverse_covariance,\n                                    empirical_covariance))", "np.trace(trained_inverse_covariance @ empirical_covariance)"))
+
+# ---------------------------------------------------------------- C17
+M("C17-df-off-by-one", {"C17": "C17.R2"}, (_CM, "        (len(stacked_training_data) - len(model.clusters)) /", "        (len(stacked_training_data) - len(model.clusters) - 1) /"))
+M("C17-df-inverted", {"C17": "C17.R2"}, (_CM, "        (len(stacked_training_data) - len(model.clusters)) /\n         (len(model.clusters) - 1)", "        (len(model.clusters) - 1) /\n         (len(stacked_training_data) - len(model.clusters))"))
+M("C17-unweighted-between", {"C17": "C17.R2"}, (_CM, "        group_dispersion = cluster.size * (recentered_data_mean @ recentered_data_mean.T)", "        group_dispersion = (recentered_data_mean @ recentered_data_mean.T)"))
+M("C17-within-about-global", {"C17": "C17.R2"}, (_CM, "            recentered_point = (stacked_training_data[point_id] -\n                                cluster.stacked_data_mean).reshape(-1, 1)", "            recentered_point = (stacked_training_data[point_id] -\n                                global_center).reshape(-1, 1)"))
+M("C17-ratio-inverted", {"C17": "C17.R2"}, (_CM, "    dispersion_ratio = np.trace(numerator) / np.trace(denominator)", "    dispersion_ratio = np.trace(denominator) / np.trace(numerator)"))
+M("C17-centre-median", {"C17": "C17.R1"}, (_CM, "    global_center = np.mean(stacked_training_data)", "    global_center = np.median(stacked_training_data, axis=0)"))
+M("C17-centre-axis1", {"C17": "C17.R1"}, (_CM, "    global_center = np.mean(stacked_training_data)", "    global_center = np.mean(stacked_training_data, axis=1)"))
+# repaired F6: the check passes with no KNOWN-FINDING
+M("C17-twin-F6-repaired", {"C17": None}, (_CM, "    global_center = np.mean(stacked_training_data)", "    global_center = np.mean(stacked_training_data, axis=0)"))
